@@ -139,6 +139,41 @@ type c12client struct {
 	lastReq atomic.Pointer[kmip.RequestMessage]
 }
 
+// newC12WireClient: no stub - the crafted response bytes travel over an in-memory connection and go through the client's
+// own receive path (framing, decoding, association with the call). A scripted server reads each request and writes the bytes
+// crafted for the current spec; after a response that the client cannot decode the client re-dials and gets a new server.
+func newC12WireClient(first *respSpec) (*c12client, error) {
+	cc := &c12client{}
+	cc.current.Store(first)
+	dialer := func(ctx context.Context) (net.Conn, error) {
+		a, b := net.Pipe()
+		go func() {
+			defer b.Close()
+			st := ttlv.NewStream(b, 0)
+			for {
+				var req kmip.RequestMessage
+				if err := st.Recv(&req); err != nil {
+					return
+				}
+				var ops []kmip.Operation
+				for _, bi := range req.BatchItem {
+					ops = append(ops, bi.Operation)
+				}
+				if _, err := b.Write(craft(*cc.current.Load(), ops)); err != nil {
+					return
+				}
+			}
+		}()
+		return a, nil
+	}
+	cl, err := kmipclient.DialContext(context.Background(), "wire", kmipclient.WithDialerUnsafe(dialer), kmipclient.EnforceVersion(kmip.V1_4))
+	if err != nil {
+		return nil, err
+	}
+	cc.cl = cl
+	return cc, nil
+}
+
 func newC12Client(negotiate bool, first *respSpec) (*c12client, error) {
 	cc := &c12client{}
 	cc.current.Store(first)
@@ -285,7 +320,7 @@ func runC12(c *vlib.Check) {
 	c.Rule = fmt.Sprintf("every fluent call (%d executors of the 27 operations, Request, Batch+Unwrap, BatchExec, the Signer flow, and the dial-time version discovery) x every crafted response of the product "+
 		"header batch count {0,1,2} x items {0,1,2} x item operation {same, another implemented, unregistered, absent} x status {Success, Failed, Pending, Undone, 7} x reason {absent, 3 named, unnamed} x "+
 		"payload {absent, right type, another operation's type, opaque} x message {empty, text} (%d responses per call). Responses are produced by the independent generator and decoded by the library before being handed to the client "+
-		"through a stub installed as innermost middleware. distinct = distinct (call, response) pairs", len(calls)-4, len(specs))
+		"through a stub installed as innermost middleware; for every 5th call the same responses also travel over an in-memory connection through the client's own receive path, many per connection. distinct = distinct (call, response) pairs", len(calls)-4, len(specs))
 	c.Assumptions = []string{"'carries status, reason and message': the error text contains the registered name (or the number, for unregistered values) of the status and of the reason when present, and the message text",
 		"the carrying clause is only judged when counts match (header count = items = requested items)"}
 	// per-item call: every pair of item specs (reduced alphabet), so that a violating item can follow a failed one
@@ -328,6 +363,30 @@ func runC12(c *vlib.Check) {
 			c12Judge(c, call, spec, func() ([]kmip.OperationPayload, error) { return call.run(cc.cl) }, i%9973 == 0)
 		}
 	})
+	// the same judge with the responses travelling over a real connection (no stub): every 5th call x every response, one
+	// client per chunk, so that each response is received after whatever the previous exchanges left in the connection
+	var wpairs []pair
+	for _, p := range pairs {
+		if p.ci%5 == 0 {
+			wpairs = append(wpairs, p)
+		}
+	}
+	vlib.Parallel((len(wpairs)+block-1)/block, 0, func(b int) {
+		cc, err := newC12WireClient(&specs[0])
+		if err != nil {
+			c.Violation("machinery:dial", err.Error(), nil)
+			return
+		}
+		defer cc.cl.Close()
+		for i := b * block; i < (b+1)*block && i < len(wpairs); i++ {
+			call, spec := calls[wpairs[i].ci], specs[wpairs[i].si]
+			cc.current.Store(&spec)
+			wcall := call
+			wcall.name = "[over a connection] " + call.name
+			c12Judge(c, wcall, spec, func() ([]kmip.OperationPayload, error) { return call.run(cc.cl) }, false)
+		}
+	})
+	c.Extra["responses_over_a_real_connection"] = len(wpairs)
 	// dial-time discovery
 	for si := range specs[:mixedStart] {
 		spec := specs[si]
@@ -456,6 +515,12 @@ func c12Judge(c *vlib.Check, call c12call, spec respSpec, run func() ([]kmip.Ope
 	if countsOK && spec.status != 0 && spec.op != 3 {
 		txt := err.Error()
 		if strings.Contains(txt, "undecodable response") {
+			return
+		}
+		// the same exemption when the bytes travelled over a connection: a response that the library's decoder rejects as a
+		// whole (e.g. a failed item carrying a payload whose content belongs to another operation) is reported as a decoding
+		// error; the carrying clause is judged on responses that decode
+		if ttlv.UnmarshalTTLV(craft(spec, call.ops), &kmip.ResponseMessage{}) != nil {
 			return
 		}
 		stName := map[uint32]string{1: "OperationFailed", 2: "OperationPending", 3: "OperationUndone", 7: "7"}[spec.status]
